@@ -672,6 +672,19 @@ def apply_contract(E, c, fn, args, kw, st, node, recv_lv=None):
             g = eval_spec(E, r, st, frame)
             E.oblige(st, f"call-pre:{c.qualname}#{i}", g, lineno=getattr(node, "lineno", None))
             st.assume(g)
+        # exceptional exits of a functional contract: a deterministic function of the arguments decides whether it raises
+        exs = list(c.exsures) + ([("Exception", None, "sub")] if c.raises_any else [])
+        for ex in exs:
+            name, cond = ex[0], ex[1]
+            mode = ex[2] if len(ex) > 2 else "may"
+            s = st.copy()
+            cb = eval_spec(E, cond, s, frame) if cond is not None else _uf_of_args(E, f"raises_{name}_{_m(c.qualname)}", frame, z3.BoolSort(), st)
+            if not E.feasible(s, cb):
+                continue
+            s.assume(cb)
+            s.note(f"{c.qualname} raises {name}")
+            E.raise_exc(s, E.new_exc(E.exc_class_by_name(name), s, exact=(mode != "sub")))
+            st.assume(z3.Not(cb))
         yield st, apply_contract_pure(E, c, fn, args, kw, st, node)
         return
     qn = c.qualname
